@@ -17,9 +17,9 @@ structure MemberData where
   D : Nat
 
 /-- look-ahead length of the member -/
-def MemberData.la (d : MemberData) : Nat := need (d.m.headD 0)
+abbrev MemberData.la (d : MemberData) : Nat := need (d.m.headD 0)
 /-- first whole byte after the first meta-block header -/
-def MemberData.src (d : MemberData) : Nat := (d.v + 7) / 8
+abbrev MemberData.src (d : MemberData) : Nat := (d.v + 7) / 8
 
 /-- the member is acceptable behind an output whose header declares `ws` -/
 structure MemberOK (ws : Nat) (d : MemberData) : Prop where
@@ -41,7 +41,7 @@ def gapBits (nprev : Nat) (d : MemberData) : List Bool :=
 
 /-- the rest of the member from its first whole byte on, without its end marker -/
 def restData (d : MemberData) : List Bool :=
-  bytesToBits ((d.m.drop d.src).dropLast 2) ++ bitsOf d.n d.D
+  bytesToBits ((d.m.drop d.src).take ((d.m.drop d.src).length - 2)) ++ bitsOf d.n d.D
 
 /-- what the later members contribute to the output -/
 def laterBits : Nat → List MemberData → List Bool
@@ -72,6 +72,13 @@ inductive Fed : List MemberData → List (List (List Nat) × List Nat) → Prop 
       (rest : List (List (List Nat) × List Nat)) (hne : bufs ≠ []) (hfl : bufs.flatten = d.m) (h : Fed ds rest) :
       Fed (d :: ds) ((bufs, caps) :: rest)
 
+theorem marked_fits {T n D : Nat} (h : Marked T n D) (hT : T < 2 ^ 16) : n + 2 ≤ 16 := by
+  obtain ⟨_, _, h3, _⟩ := h.bounds
+  rcases Nat.lt_or_ge (n + 1) 16 with h16 | h16
+  · omega
+  · have : 2 ^ 16 ≤ 2 ^ (n + 1) := Nat.pow_le_pow_right (by decide) h16
+    omega
+
 theorem tail_of_total (total front held' : List Nat) (body : List Nat) (a b : Nat)
     (h : front ++ held' = total ++ body ++ [a, b]) (hl : held'.length = 2) :
     held' = [a, b] ∧ front = total ++ body := by
@@ -91,12 +98,13 @@ theorem boundary_step (fuel : Nat) (s : State) (acc : List Nat) (n D : Nat) (dat
   have hla : d.la ≤ d.m.length := by have := hok.long; omega
   obtain ⟨hcode, hpend, hinv, hws, hlen, G, hcons, hG⟩ :=
     member_step_bits fuel s d.m bufs caps acc R n D wsz d.wo d.v hB.inv hB.pending hB.ws (Or.inr hB.len)
-      (by rw [hB.len]; have := hB.marked.bounds; have := hB.marked.lt; exact marked_fits hB.marked (by
+      (by rw [hB.len]; exact marked_fits hB.marked (by
         have h1 := hB.lo; have h2 := hB.hi
         rw [Nat.shiftLeft_eq]; omega))
       hB.marked hla hok.bytes hparse hwle hok.form hok.det hok.fit hne hfl h
   have hlen2 : R.st.last_bytes_len = 2 := by
-    rw [hlen]; have := hok.long; unfold MemberData.la at this; omega
+    have hla_def : d.la = need (d.m.headD 0) := rfl
+    rw [hlen]; have := hok.long; omega
   -- the member's tail
   have hsrcpre : d.src ≤ pre.length := by
     have := hok.room
@@ -107,7 +115,7 @@ theorem boundary_step (fuel : Nat) (s : State) (acc : List Nat) (n D : Nat) (dat
     rw [hm, List.drop_append_of_le_length hsrcpre]
   have hheld : (held R.st).length = 2 := by rw [held_length R.st hpend hinv.len_le, hlen2]
   have hcons' : R.emitted ++ held R.st = (acc ++ G) ++ pre.drop d.src ++ [a, b] := by
-    rw [hcons]; unfold MemberData.src at hdrop; rw [hdrop]; simp [List.append_assoc]
+    rw [hcons, hdrop]; simp [List.append_assoc]
   obtain ⟨e1, e2⟩ := tail_of_total (acc ++ G) R.emitted (held R.st) (pre.drop d.src) a b hcons' hheld
   rw [held_none R.st hpend, hlen2] at e1
   simp only [List.take_succ_cons, List.take_zero, List.cons.injEq, and_true] at e1
@@ -117,11 +125,101 @@ theorem boundary_step (fuel : Nat) (s : State) (acc : List Nat) (n D : Nat) (dat
   refine ⟨hcode, hws, ⟨hinv, hpend, by rw [hws]; exact hB.ws, hlen2, by rw [ea, eb]; exact hmark,
     by rw [ea]; exact ha, by rw [eb]; exact hb, ?_⟩⟩
   rw [e2, bytesToBits_append, bytesToBits_append, hG, ← hB.data]
-  unfold gapBits restData MemberData.la MemberData.src
-  have : (d.m.drop ((d.v + 7) / 8)).dropLast 2 = pre.drop ((d.v + 7) / 8) := by
-    unfold MemberData.src at hdrop
+  unfold gapBits restData
+  have : (d.m.drop d.src).take ((d.m.drop d.src).length - 2) = pre.drop d.src := by
     rw [hdrop]; simp
   rw [this]
-  simp [List.append_assoc]
+  simp only [List.append_assoc]
+
+/-- all later members -/
+theorem later_members (fuel : Nat) : ∀ (ds : List MemberData) (rest : List (List (List Nat) × List Nat)),
+    Fed ds rest → ∀ (s : State) (acc : List Nat) (n D : Nat) (data : List Bool) (R : Run),
+    Boundary s acc n D data → (∀ d, d ∈ ds → MemberOK s.window_size d) →
+    concatAll fuel s rest acc = some R →
+    R.code = NEEDS_MORE_INPUT ∧ ∃ D', Boundary R.st R.emitted (lastN n ds) D' (data ++ laterBits n ds) := by
+  intro ds rest hfed
+  induction hfed with
+  | nil =>
+    intro s acc n D data R hB _ h
+    simp only [concatAll, Option.some.injEq] at h
+    subst h
+    exact ⟨rfl, D, by simpa [lastN, laterBits] using hB⟩
+  | cons d ds bufs caps rest hne hfl _ ih =>
+    intro s acc n D data R hB hok h
+    unfold concatAll at h
+    cases hr : runAll fuel (newBrotliFile s) bufs caps acc with
+    | none => rw [hr] at h; simp at h
+    | some r =>
+      rw [hr] at h
+      dsimp only at h
+      obtain ⟨hcode, hws, hB'⟩ := boundary_step fuel s acc n D data d bufs caps r hB (hok d (by simp)) hne hfl hr
+      have hnt : isTerminal r.code = false := by rw [hcode]; rfl
+      rw [hnt] at h
+      simp only [Bool.false_eq_true, if_false] at h
+      obtain ⟨hc, D', hfin⟩ := ih r.st r.emitted d.n d.D _ R hB'
+        (fun d' hd' => by rw [hws]; exact hok d' (by simp [hd'])) h
+      refine ⟨hc, D', ?_⟩
+      simpa [lastN, laterBits, List.append_assoc] using hfin
+
+/-- the first member establishes the first boundary -/
+theorem first_boundary (fuel : Nat) (s : State) (m pre : List Nat) (a b n D wsz wo : Nat)
+    (bufs : List (List Nat)) (caps : List Nat) (R : Run)
+    (hI : Inv s) (hws : s.window_size = 0) (hbytes : ∀ y, y ∈ m → y < 256)
+    (hlong : need (m.headD 0) + 1 ≤ m.length)
+    (hparse : parseWindowSize (m.take (need (m.headD 0))) = ok (some (wsz, wo)))
+    (hm : m = pre ++ [a, b]) (hmark : Marked (a + (b <<< 8)) n D)
+    (hne : bufs ≠ []) (hfl : bufs.flatten = m)
+    (h : runAll fuel (newBrotliFile s) bufs caps [] = some R) :
+    R.code = NEEDS_MORE_INPUT ∧
+    R.st.window_size = (wsz ||| (if wo = 14 then LARGE_WINDOW_FLAG else 0)) ∧
+    Boundary R.st R.emitted n D (bytesToBits pre ++ bitsOf n D) := by
+  obtain ⟨hcons, hcode, hpend, hlen, hinv, hwsR⟩ :=
+    first_member_bytes fuel s m bufs caps [] R hI hws (by omega) wsz wo hparse hne hfl h
+  have hlen2 : R.st.last_bytes_len = 2 := by rw [hlen]; omega
+  have hheld : (held R.st).length = 2 := by rw [held_length R.st hpend hinv.len_le, hlen2]
+  have hcons' : R.emitted ++ held R.st = ([] ++ pre) ++ [a, b] := by rw [hcons, hm]; simp
+  obtain ⟨e1, e2⟩ := List.append_inj' hcons' (by simp [hheld])
+  rw [held_none R.st hpend, hlen2] at e2
+  simp only [List.take_succ_cons, List.take_zero, List.cons.injEq, and_true] at e2
+  obtain ⟨ea, eb⟩ := e2
+  have hw10 : 10 ≤ wsz := by
+    have hl : 2 ≤ (m.take (need (m.headD 0))).length := by
+      rw [List.length_take]; unfold need at hlong ⊢; split at hlong <;> split <;> omega
+    have := parseWindowSize_sat _ hl
+    rw [hparse, sat_ok] at this
+    exact (this wsz wo rfl).1
+  refine ⟨hcode, hwsR, ⟨hinv, hpend, ?_, hlen2, by rw [ea, eb]; exact hmark,
+    by rw [ea]; exact hbytes a (by rw [hm]; simp), by rw [eb]; exact hbytes b (by rw [hm]; simp), ?_⟩⟩
+  · rw [hwsR]
+    have := @Nat.left_le_or wsz (if wo = 14 then LARGE_WINDOW_FLAG else 0)
+    omega
+  · rw [e1]; simp
+
+/-- `finish` at a boundary: the tail goes out unchanged; the whole output is data ++ marker ++ padding -/
+theorem finish_boundary (s : State) (acc : List Nat) (n D : Nat) (data : List Bool) (cap : Nat)
+    (hB : Boundary s acc n D data) (hcap : 2 ≤ cap) :
+    ∃ st p, finish s cap = ok ⟨st, SUCCESS, 0, p⟩ ∧
+      bytesToBits (acc ++ p) = data ++ [true, true] ++ List.replicate (14 - n) false := by
+  have hns : s.last_byte_sanitized = false := by
+    cases hs : s.last_byte_sanitized with
+    | false => rfl
+    | true => have := (hB.inv.san hs).1; rw [hB.pending] at this; simp at this
+  obtain ⟨st, hst⟩ := finish_passthrough s cap hB.pending hns (Or.inr hB.len) hcap
+  refine ⟨st, held s, hst, ?_⟩
+  rw [held_none s hB.pending, hB.len, bytesToBits_append, ← hB.data]
+  have hT : [s.last_bytes.1, s.last_bytes.2].take 2
+      = [(s.last_bytes.1 + (s.last_bytes.2 <<< 8)) % 256, (s.last_bytes.1 + (s.last_bytes.2 <<< 8)) / 256] := by
+    have h1 := hB.lo
+    rw [Nat.shiftLeft_eq]
+    simp only [List.take_succ_cons, List.take_zero]
+    congr 1
+    · omega
+    · congr 1; omega
+  have hn16 : n + 2 ≤ 16 := marked_fits hB.marked (by
+    have h1 := hB.lo; have h2 := hB.hi
+    rw [Nat.shiftLeft_eq]; omega)
+  rw [hT, bits_le2, hB.marked.bits 16 hn16]
+  have : 16 - n - 2 = 14 - n := by omega
+  simp [List.append_assoc, this]
 
 end BV.Concat
